@@ -79,6 +79,17 @@ mod execcmp;
 
 fn main() {
     // generators and the code under test recurse over documents: run on a roomy stack
+    // watchdog: a check that does not finish is inconclusive (exit 2), never a verdict
+    let args: Vec<String> = std::env::args().collect();
+    if !(args.len() >= 2 && args[1] == "--child") {
+        let thorough = args.get(2).map_or(false, |t| t == "thorough");
+        let limit = std::env::var("VERIF_WATCHDOG_S").ok().and_then(|v| v.parse::<u64>().ok()).unwrap_or(if thorough { 6 * 3600 } else { 3600 });
+        std::thread::spawn(move || {
+            std::thread::sleep(std::time::Duration::from_secs(limit));
+            eprintln!("INCONCLUSIVE: the check did not finish within {} s (watchdog)", limit);
+            std::process::exit(2);
+        });
+    }
     let h = std::thread::Builder::new().stack_size(256 << 20).spawn(real_main).unwrap();
     if h.join().is_err() {
         // nothing may end a check silently: a panic that escaped every guard is a broken run, not a pass
